@@ -2136,13 +2136,33 @@ package ucfg
 //@ modifies *
 //@ ensures [target_type] err == nil && val != nil && typeof(val) != *cfgNil && t != baseType && rtKind(t) != 20 ==> rvType(r) == t
 
-// FlattenedKeys is a read: it writes nothing but the slice it builds (C11); its run-time errors are claimed (C07)
+// FlattenedKeys is a read: it writes nothing but the slice it builds and the scope pointer of its own options (C11);
+// its run-time errors are claimed (C07). C08: the descent never goes back through the exported entry point (which
+// would start a new set of references under evaluation: unbounded recursion on a reference to an enclosing
+// object), every child is evaluated in a fresh, empty scope level, and the level is restored on return.
 //@ func (*Config).FlattenedKeys :: c, opts -> keys
-//@ props C11 C07
+//@ props C11 C07 C08
 //@ nonil
-//@ pure
 //@ requires c != nil && c.fields != nil
+//@ modifies nothing
 //@ ensures [fresh_result] keys == nil || fresh(base(keys))
+
+//@ func (*Config).flattenedKeys$1
+//@ props C08
+//@ requires deref(opts) != nil
+//@ modifies deref(opts).activeFields
+//@ ensures [restore] deref(opts).activeFields == deref(parentFields)
+
+//@ func (*Config).flattenedKeys :: c, opts -> keys
+//@ props C11 C07 C08
+//@ nonil
+//@ requires c != nil && c.fields != nil && opts != nil
+//@ modifies opts.activeFields
+//@ at-call (*Config).FlattenedKeys requires false
+//@ at-call iface:value.toConfig requires opts != nil && opts.activeFields != nil && forall k string :: !has(opts.activeFields.fields, k)
+//@ at-call (*Config).flattenedKeys requires opts == entry(opts)
+//@ ensures [fresh_result] keys == nil || fresh(base(keys))
+//@ ensures [scope] opts.activeFields == old(opts.activeFields)
 //@ loop 1 invariant keys == nil || fresh(base(keys))
 //@ loop 2 invariant keys == nil || fresh(base(keys))
 
